@@ -130,6 +130,54 @@ pub fn softmax_case(n: usize, shape3: bool) -> Case {
     }
 }
 
+/// long vectors ("all vector lengths"): soft-max over n inputs equals the definition; flat and 1 x h x w tensors
+pub fn softmax_long_case(n: usize, dims3: Option<(usize, usize)>) -> Case {
+    Case {
+        id: format!("C07/softmax-long/{}{}", n, match dims3 { Some((h, w)) => format!("/1x{}x{}", h, w), None => String::new() }),
+        property: "C07",
+        family: "activation::Softmax::forward",
+        class: "softmax".into(),
+        no_ties: false,
+        max_paths: 8,
+        run: Box::new(move |ctx| {
+            let f = Function::create(&Activation::Softmax);
+            let x = v1(ctx, "x", n);
+            let t = match dims3 {
+                Some((h, w)) => t3(&vec![x.chunks(w).map(|r| r.to_vec()).collect::<Vec<_>>()[..h].to_vec()]),
+                None => t1(&x),
+            };
+            let y = f.forward(&t);
+            let ey = elems(&y);
+            ctx.fact("count", ey.len() == n && dims(&y) == dims(&t), format!("{} {:?}", ey.len(), dims(&y)));
+            if ey.len() != n {
+                return;
+            }
+            // every output is the defining expression exp(x_i - max) / sum_j exp(x_j - max), summed in index order — as a
+            // Float32 identity (the same DAG on an unchanged tree). That the defining expression sums to one is decided on
+            // the short vectors; a solver query over a thousand quotients does not finish.
+            // (the defining expression in evaluation order: running maximum from the left, exponentials summed from the left
+            // starting at 0 — so that on an unchanged tree both sides are one DAG and nothing large reaches a solver)
+            let mut m = lit(f32::NEG_INFINITY);
+            for v in x.iter() {
+                m = m.max(*v);
+            }
+            let e: V1 = x.iter().map(|v| (*v - m).exp()).collect();
+            let mut s = lit(0.0);
+            for v in e.iter() {
+                s = s + *v;
+            }
+            // (a sparse set of positions: under a change every claim carries the whole thousand-term DAG to the solvers)
+            let mut pos: Vec<usize> = vec![0, 1, 2, n / 2, n - 3, n - 2, n - 1];
+            pos.extend((0..n).step_by(128));
+            pos.sort();
+            pos.dedup();
+            for i in pos {
+                ctx.claim(&format!("definition[{}]", i), Th::Fp, B::Ident(ey[i], e[i] / s));
+            }
+        }),
+    }
+}
+
 /// Negative control: sigmoid compared with `1/(1+exp(x))`.
 pub fn control_case() -> Case {
     Case {
@@ -164,6 +212,11 @@ pub fn cases(tier: Tier, _seed: u64) -> Vec<Case> {
         out.push(softmax_case(n, false));
     }
     out.push(softmax_case(2, true));
+    out.push(softmax_long_case(1025, None));
+    if full {
+        out.push(softmax_long_case(1089, Some((33, 33))));
+        out.push(softmax_long_case(2049, None));
+    }
     out.push(control_case());
     out
 }
